@@ -12,7 +12,7 @@ LEMMAS = CAL_LEMMAS + ["week.key.order", "day.floor"]
 
 def _quick_add(name):
     """Quick tier: pure year steps, and the mixed-duration cases for h:m:s points with the
-    covering component subsets (thorough: all 48 subsets x 9 shapes)."""
+    covering component subsets (thorough: all 48 subsets on h:m:s points, the 6 covering subsets on decimal-minute / decimal-hour points, 3 representations)."""
     if "+mixed:" not in name:
         return True
     from contracts.timepoint_t2 import MIX_QUICK
@@ -47,8 +47,8 @@ ASSUMPTIONS = [
     "runmin is an uninterpreted function defined by its two recursive equations, "
     "instantiated where needed (definitional, always true)",
     "mixed durations: proved for unit-form durations per subset of present (non-zero) "
-    "components; quick tier: 6 covering subsets on h:m:s points, thorough: all 48 subsets x "
-    "3 representations x 3 precision forms; 24:00 operands excluded (add_months' "
+    "components; quick tier: 6 covering subsets on h:m:s points, thorough: all 48 subsets x 3 representations on h:m:s points, the 6 covering "
+    "subsets on the two decimal precision forms; 24:00 operands excluded (add_months' "
     "precondition)",
     "24:00 inputs are excluded from add_months' contract (its final tick-over normalises "
     "them to the next day)"]
